@@ -518,3 +518,290 @@ func init() {
 }
 
 func sleepMs(n int) { time.Sleep(time.Duration(n) * time.Millisecond) }
+
+// ---------------------------------------------------------------- engine "lockwalk" (C04, C01)
+// One real validator of four, the harness plays the other three with full control over what the
+// node sees and when: several rounds of one height with a proposal per round (new block, an earlier
+// block again, none), prevotes and precommits split between blocks and nil, some of them withheld
+// and delivered rounds later, and the timeouts needed to move on.  Every input is a node-model input.
+
+func runLockWalkCase(idx int, cse *csCase, workroot string) ([]string, []MonitorHit, map[string]int, bool) {
+	r := NewRng(cse.Seed)
+	c := &cnet{r: r, chainID: "verif-chain", archive: map[int64][]netMsg{}, dist: map[string]int{}, caseIdx: idx,
+		blocks: map[string]*types.Block{}, psets: map[string]*types.PartSet{}, proposers: map[string][]byte{}, madeInvalid: map[string]string{}}
+	c.workdir = filepath.Join(workroot, fmt.Sprintf("walk%d", idx))
+	os.RemoveAll(c.workdir)
+	os.MkdirAll(c.workdir, 0700)
+	defer func() {
+		for _, nd := range c.nodes {
+			if nd != nil && !nd.down && nd.cs != nil {
+				catchPanic(func() { nd.cs.VerifCloseWAL() })
+			}
+		}
+		os.RemoveAll(c.workdir)
+	}()
+	c.n = 4
+	c.partSize = 65536
+	type kv struct {
+		k crypto.PrivKeyEd25519
+		a []byte
+	}
+	var ks []kv
+	for i := 0; i < c.n; i++ {
+		k := crypto.GenPrivKeyEd25519FromSecret(r.Bytes(16))
+		ks = append(ks, kv{k, k.PubKey().Address()})
+	}
+	sort.Slice(ks, func(i, j int) bool { return bytes.Compare(ks[i].a, ks[j].a) < 0 })
+	for i := range ks {
+		c.keys = append(c.keys, ks[i].k)
+		c.addrs = append(c.addrs, ks[i].a)
+		c.powers = append(c.powers, 1)
+	}
+	me := r.Intn(c.n)
+	c.byz = make([]bool, c.n)
+	for i := range c.byz {
+		c.byz[i] = i != me
+	}
+	gd := &types.GenesisDoc{ChainID: c.chainID, AppHash: []byte{}}
+	for i := range c.keys {
+		gd.Validators = append(gd.Validators, types.GenesisValidator{PubKey: c.keys[i].PubKey(), Amount: c.powers[i], Name: fmt.Sprintf("v%d", i)})
+	}
+	c.genDoc = gd
+	c.nodes = make([]*vnode, c.n)
+	if err := c.boot(me, true); err != nil {
+		c.hit("harness-error", err.Error())
+		return nil, c.hits, c.dist, false
+	}
+	nd := c.nodes[me]
+	nd.trace = append(nd.trace, sxL("(7)", c.observe(nd, c.collect(nd, 1))))
+	drainOwn := func() {
+		for guard := 0; guard < 50 && len(nd.internal) > 0 && nd.panicked == ""; guard++ {
+			m := nd.internal[0]
+			nd.internal = nd.internal[1:]
+			c.deliver(nd, netMsg{msg: m, from: ""})
+		}
+	}
+	var others []int
+	for i := 0; i < c.n; i++ {
+		if i != me {
+			others = append(others, i)
+		}
+	}
+	type held struct {
+		m netMsg
+	}
+	var late []netMsg
+	var bids []types.BlockID // blocks proposed so far in this height
+	send := func(m netMsg) {
+		if r.Chance(1, 4) {
+			late = append(late, m)
+			c.dist["withheld"]++
+			return
+		}
+		c.deliver(nd, m)
+		drainOwn()
+	}
+	vote := func(i int, round int64, t byte, bid types.BlockID) netMsg {
+		v := c.byzSignVote(i, nd.cs.GetRoundState().Height, round, t, bid, false)
+		return netMsg{msg: &pbft.VoteMessage{Vote: v}, from: fmt.Sprintf("byz%d", i)}
+	}
+	c.fire(nd) // NewHeight -> round 0
+	drainOwn()
+	rounds := 3 + r.Intn(4)
+	startH := nd.cs.GetRoundState().Height
+	for step := 0; step < rounds*6 && nd.panicked == "" && nd.cs.GetRoundState().Height == startH; step++ {
+		rs := nd.cs.GetRoundState()
+		// something from the past turns up
+		if len(late) > 0 && r.Chance(1, 3) {
+			j := r.Intn(len(late))
+			m := late[j]
+			late = append(late[:j], late[j+1:]...)
+			c.dist["late-delivery"]++
+			c.deliver(nd, m)
+			drainOwn()
+			continue
+		}
+		switch rs.Step {
+		case pbft.RoundStepPropose:
+			pi := -1
+			for i := range c.addrs {
+				if bytes.Equal(c.addrs[i], rs.Validators.Proposer().Address) {
+					pi = i
+				}
+			}
+			if rs.Proposal == nil && pi != me && r.Chance(4, 5) {
+				var ps *types.PartSet
+				if len(bids) > 0 && r.Chance(1, 3) {
+					ps = c.psets[pshKey(bids[r.Intn(len(bids))].PartsHeader)] // an earlier block again
+					c.dist["proposal=repeat"]++
+				} else {
+					blk, nps := c.byzBlock(nd, pi, false)
+					if blk != nil {
+						c.registerBlock(blk, nps)
+						ps = nps
+						c.dist["proposal=new"]++
+					}
+				}
+				if ps != nil {
+					polr := int64(-1)
+					if rs.Round > 0 && r.Chance(1, 3) {
+						polr = int64(r.Intn(int(rs.Round)))
+					}
+					p := types.NewProposal(rs.Height, rs.Round, ps.Header(), polr, types.BlockID{})
+					p.Signature = c.keys[pi].Sign(types.SignBytes(c.chainID, p))
+					c.deliver(nd, netMsg{msg: &pbft.ProposalMessage{Proposal: p}, from: "byz"})
+					if r.Chance(5, 6) {
+						for i := 0; i < ps.Total(); i++ {
+							c.deliver(nd, netMsg{msg: &pbft.BlockPartMessage{Height: rs.Height, Round: rs.Round, Part: ps.GetPart(i)}, from: "byz"})
+						}
+					}
+					drainOwn()
+				}
+			}
+			if nd.cs.GetRoundState().Step == pbft.RoundStepPropose {
+				c.fire(nd) // propose timeout
+				drainOwn()
+			}
+			rs = nd.cs.GetRoundState()
+			if rs.ProposalBlock != nil {
+				b := types.BlockID{Hash: rs.ProposalBlock.Hash(), PartsHeader: rs.ProposalBlockParts.Header()}
+				known := false
+				for _, x := range bids {
+					if x.Equals(b) {
+						known = true
+					}
+				}
+				if !known && len(b.Hash) > 0 {
+					bids = append(bids, b)
+				}
+			}
+		case pbft.RoundStepPrevote, pbft.RoundStepPrecommit:
+			t := byte(types.VoteTypePrevote)
+			if rs.Step == pbft.RoundStepPrecommit {
+				t = types.VoteTypePrecommit
+			}
+			// the three others vote: all for one block, all nil, or split
+			pat := r.Intn(5)
+			for k, i := range others {
+				var b types.BlockID
+				switch {
+				case pat == 0 && len(bids) > 0:
+					b = bids[len(bids)-1]
+				case pat == 1:
+					b = types.BlockID{}
+				case pat == 2 && len(bids) > 0:
+					b = bids[r.Intn(len(bids))]
+				case pat == 3 && len(bids) > 0 && k < 2:
+					b = bids[len(bids)-1]
+				default:
+					if len(bids) > 0 && r.Bool() {
+						b = bids[r.Intn(len(bids))]
+					}
+				}
+				send(vote(i, rs.Round, t, b))
+				if nd.cs.GetRoundState().Step != rs.Step || nd.cs.GetRoundState().Round != rs.Round {
+					break
+				}
+			}
+			rs2 := nd.cs.GetRoundState()
+			if rs2.Step == rs.Step && rs2.Round == rs.Round {
+				// not enough arrived to move on: the rest of the network moves to the next round
+				for _, i := range others {
+					send(vote(i, rs.Round+1, types.VoteTypePrevote, types.BlockID{}))
+				}
+			}
+		case pbft.RoundStepPrevoteWait, pbft.RoundStepPrecommitWait, pbft.RoundStepNewHeight:
+			if nd.timeout != nil {
+				c.fire(nd)
+				drainOwn()
+			} else {
+				for _, i := range others {
+					send(vote(i, rs.Round+1, types.VoteTypePrevote, types.BlockID{}))
+				}
+			}
+		case pbft.RoundStepCommit:
+			if ps, ok := c.psets[pshKey(rs.ProposalBlockParts.Header())]; ok {
+				for i := 0; i < ps.Total(); i++ {
+					c.deliver(nd, netMsg{msg: &pbft.BlockPartMessage{Height: rs.Height, Round: rs.Round, Part: ps.GetPart(i)}, from: "byz"})
+				}
+				drainOwn()
+			}
+		default:
+			if nd.timeout != nil {
+				c.fire(nd)
+				drainOwn()
+			}
+		}
+	}
+	rs := nd.cs.GetRoundState()
+	c.dist[fmt.Sprintf("rounds-reached=%d", rs.Round)]++
+	if rs.Height > startH {
+		c.dist["committed"]++
+	}
+	vals := make([]string, c.n)
+	for i := range c.keys {
+		vals[i] = sxL(sxB(c.addrs[i]), sxB(c.keys[i].PubKey().Bytes()), sxZ(c.powers[i]))
+	}
+	line := sxL(sxL(vals...), sxB(c.addrs[me]), sxBool(c.skip), sxL(nd.trace...))
+	cse.Note = fmt.Sprintf("me=%d rounds=%d", me, rounds)
+	return []string{line}, c.hits, c.dist, rs.Round > 0
+}
+
+func init() {
+	engines["lockwalk"] = func(args []string) error {
+		c, err := commonFlags("lockwalk", args, nil)
+		if err != nil {
+			return err
+		}
+		meta := NewMeta("lockwalk", c.Seed)
+		meta.Rule = "case = one real validator of four (unit powers; the harness holds the other three keys and decides everything the node sees) walked through 3..6 rounds of one height: per round a proposal by the round's proposer (a new valid block, an earlier block again, with or without a POL round, with or without its parts, or none), prevotes and precommits of the other three all for one block, all nil, or split between earlier blocks and nil, a quarter of all messages withheld and delivered at a random later point (votes of past rounds arriving late), the timeouts needed to move on, and votes for the next round when too little arrived; every input is a node-model input followed by an observation; monitors: lock abandoned without a later polka, precommit without polka; distinct = case line; non-trivial = the node left round 0"
+		var cases []*csCase
+		if c.Replay != "" {
+			var x csCase
+			if err := readJSON(c.Replay, &x); err != nil {
+				return err
+			}
+			cases = append(cases, &x)
+		} else {
+			r := NewRng(c.Seed)
+			for i := 0; i < c.N; i++ {
+				cases = append(cases, &csCase{Seed: r.U64()})
+			}
+		}
+		work, err := ioutil.TempDir("", "annverif-lockwalk")
+		if err != nil {
+			return err
+		}
+		defer os.RemoveAll(work)
+		dist := NewDistinct()
+		var sb strings.Builder
+		line := 0
+		for i, cs := range cases {
+			lines, hits, d, nt := runLockWalkCase(i, cs, work)
+			for _, h := range hits {
+				h.Case = line
+				meta.Monitor = append(meta.Monitor, h)
+			}
+			for k, v := range d {
+				meta.Dist[k] += v
+			}
+			for _, l := range lines {
+				sb.WriteString(l + "\n")
+				writeCase(c.Out, line, cs)
+				line++
+				meta.Evaluations++
+				if nt {
+					dist.Add(l)
+				}
+			}
+			if i < 1 {
+				meta.Samples = append(meta.Samples, cs)
+			}
+		}
+		meta.Distinct = dist.Len()
+		if err := ioutil.WriteFile(filepath.Join(c.Out, "cases.sx"), []byte(sb.String()), 0644); err != nil {
+			return err
+		}
+		return meta.Write(c.Out)
+	}
+}
